@@ -159,7 +159,7 @@ Qed.
 
 (* ---------- floor(log10 a) in the standard range, from log10_sane ---------- *)
 Lemma log10_sane_std : forall log10,
-  (forall a k, valid_binary prec emax a = true -> in_decade a k ->
+  (forall a k, valid_binary prec emax a = true -> nsign a = false -> in_decade a k ->
                (k <= as_i32 (nfloor (log10 a)) <= k + 1)%Z) ->
   forall a, valid a -> Num.is_finite a = true -> scientific_range a = false ->
   (-5 <= as_i32 (nfloor (log10 a)) <= 15)%Z.
@@ -173,7 +173,8 @@ Proof.
   destruct a as [s|s| |s m e]; try discriminate Fa.
   - exfalso. unfold RV in Hlo at 2. cbn [SF2R] in Hlo. lra.
   - destruct (valid_decade s m e Va) as (k & Hk & _).
-    pose proof (HL _ k Va Hk) as B. apply in_decade_R in Hk.
+    assert (Ns : nsign (S754_finite s m e) = false) by (apply RV_pos_nsign; lra).
+    pose proof (HL _ k Va Ns Hk) as B. apply in_decade_R in Hk.
     rewrite Rabs_pos_eq in Hk by lra.
     assert (A1 : (k < 15)%Z) by (apply (lt_bpow radix10); lra).
     assert (A2 : (-4 < k + 1)%Z) by (apply (lt_bpow radix10); lra).
@@ -183,8 +184,8 @@ Qed.
 (* ====================================================================================
    every valid double is displayed as a well-formed numeral by the executable model
    ==================================================================================== *)
-Theorem display_wellformed_exec : forall log10 fx,
-  (forall a k, valid_binary prec emax a = true -> in_decade a k ->
+Theorem display_wellformed_exec_pos : forall log10 fx,
+  (forall a k, valid_binary prec emax a = true -> nsign a = false -> in_decade a k ->
                (k <= as_i32 (nfloor (log10 a)) <= k + 1)%Z) ->
   forall x t, valid_binary 53 1024 x = true ->
   format_display_number log10 powi_exec fmt_prec_exec fmt_exp14_exec parse_f64_exec fx x = Ok t ->
@@ -197,3 +198,11 @@ Proof.
              (log10_sane_std log10 HL) powi_exec_std_bounds x t V H).
   - unfold fmt_exp14_v. change prec with 53%Z. change emax with 1024%Z. now rewrite V.
 Qed.
+
+Theorem display_wellformed_exec : forall log10 fx,
+  (forall a k, valid_binary prec emax a = true -> in_decade a k ->
+               (k <= as_i32 (nfloor (log10 a)) <= k + 1)%Z) ->
+  forall x t, valid_binary 53 1024 x = true ->
+  format_display_number log10 powi_exec fmt_prec_exec fmt_exp14_exec parse_f64_exec fx x = Ok t ->
+  wf_numeral t = true.
+Proof. intros log10 fx HL. apply display_wellformed_exec_pos. intros a k V _ D. exact (HL a k V D). Qed.
